@@ -50,7 +50,8 @@ SPEC = dict(
     shards=12,
     rule=("R: one event, rules with priorities 0..5 in shuffled declaration order, failing rule at every rank / none / two, both flag "
           "settings, plus rule sets with equal and negative priorities; S: the same rule sets declared as ECAL sinks (priority attribute, raise, addEvent) "
-          "run by the interpreter with its default setting; B: every sequence of exactly 6 (quick) / 7 (thorough) RootMonitor "
+          "run by the interpreter with its default setting; R and S also after processor life-cycle histories (Start/Finish cycles, Reset and "
+          "re-declaration as in CLIInterpreter.LoadInitialFile, the flag set before / in between / after); B: every sequence of exactly 6 (quick) / 7 (thorough) RootMonitor "
           "steps over 3 priorities (activate, skip, finish per priority, root monitor) plus random sequences of up to 90 calls over up to 12 "
           "priorities incl. negative and rejected calls; K: random cascade scripts (1..3 root monitors, up to 12 events each, priorities "
           "-3..5, skipped and failing events) on 1 worker (exact start order + HighestPriority sampled in every action) and on 2..8 workers "
